@@ -71,6 +71,7 @@ def run(chk):
         sims.append((sim, 'coalesced %d' % i))
     sc.compare_with_model(chk, sims, with_timers=True)
     adversarial_term_cases(chk)
+    policy_termination_cases(chk)
     agent_cases(chk)
     chk.assumptions += ['TLS disabled; idle timer disabled in these runs (idle-timeout termination is covered by C14); keepalive timers enabled in the coalesced-read runs',
                         'tcpcl.agent.Agent (shutdown/stop/stop_on_close over several contacts) is driven with real ContactHandlers on simulated sockets; each contact is brought to its state by a scripted peer and no peer answers after that']
@@ -157,6 +158,58 @@ def adversarial_term_cases(chk):
                                       'x_cfg': x.model_cfg(), 'x_events': x.events})
         advs.append((adv, 'adversarial term %s %s %s' % (state, who, order)))
     c17.compare(chk, advs)
+
+
+def policy_termination_cases(chk):
+    ''' Termination requested by the endpoint itself at the moment the session would be established: under TLS the
+    peer's certificate contradicts its announced node ID (or a required identifier is missing), so the endpoint
+    must send one SESS_TERM (contact failure) and close once the peer has answered — on both the active and the
+    passive side, whether or not the peer pipelines its SESS_INIT. Uses the scripted-TLS harness of C15. '''
+    import tlslib as T
+    rng = chk.rng
+    rows = []
+    for passive in (False, True):
+        for (uri, require_node) in ((['dtn://other/'], False), (['dtn://other/'], True), ([], True)):
+            # (a SESS_INIT pipelined in the clear ahead of the handshake is discarded, by design: not a case here)
+            for pipelined in (False,):
+                rows.append((passive, uri, require_node, pipelined))
+    for (passive, uri, require_node, pipelined) in rows:
+        sc = dict(passive=passive, tls_enable=True, require_tls=True, require_host=False, require_node=require_node,
+                  peer_flags=1, handshake='ok', pipelined=pipelined, peer_name='192.0.2.1', sock_peer='192.0.2.1',
+                  peer_node='dtn://peer/',
+                  cert=dict(san=True, ip=[T.ip_bytes('192.0.2.1').hex()], dns=[], uri=uri, other=[], order=rng.randint(0, 1)))
+        r = T.Run(sc)
+        r.start()
+        ch = T.contact_bytes(sc['peer_flags'])
+        si = T.sess_init_bytes(sc['peer_node'])
+        if pipelined:
+            r.feed(ch + si)
+        else:
+            r.feed(ch)
+            if not r.sock.closed:
+                r.feed(si)
+        obs = r.observe()
+        chk.case({'policy_termination': True, 'passive': passive, 'cert_uri': uri, 'require_node': require_node, 'pipelined': pipelined})
+        chk.count('policy-termination')
+        bad = []
+        terms = [m for m in obs['secured'] + obs['clear'] if m['k'] == 'sess_term']
+        if obs['escaped']:
+            bad.append(('C09:escape-%s-policy-termination' % obs['escaped'][0],
+                        'exception %s escapes the read callback when the peer has to be refused at session establishment' % obs['escaped'][0]))
+        elif obs['state'] == 'established' and not obs['closed']:
+            pass        # the policy accepted this peer: not a termination case (C15 judges the policy itself)
+        elif not obs['closed']:
+            if len(terms) != 1:
+                bad.append(('C09:sess-term-count-%d' % len(terms), 'peer refused at establishment: %d SESS_TERM written, state %s, connection open' % (len(terms), obs['state'])))
+            else:
+                r.feed(tu.rfc_encode({'k': 'sess_term', 'flags': 1, 'reason': terms[0]['reason']}))
+                r.pump()
+                if not r.sock.closed:
+                    bad.append(('C09:not-closed', 'peer refused at establishment, SESS_TERM exchanged, the connection is still open (state %s)' % r.h.get_session_state()))
+                elif r.escaped:
+                    bad.append(('C09:escape-%s-policy-termination' % r.escaped[0], 'exception %s escapes while closing after a refused establishment' % r.escaped[0]))
+        for (sig, what) in bad:
+            chk.violation(sig, what, {'scenario': {k: (v if not isinstance(v, bytes) else v.hex()) for k, v in sc.items()}})
 
 
 def agent_cases(chk):
